@@ -22,6 +22,7 @@ import (
 	"strings"
 	"sync"
 
+	"github.com/vedadiyan/genql/compare"
 	"github.com/vedadiyan/sqlparser/v2"
 )
 
@@ -88,7 +89,9 @@ func ToCatalog(rows []any, ident string, identRight string, joinExpr sqlparser.E
 				return nil, err
 			}
 			// length-prefixed so that ("a-", "b") and ("a", "-b") get different keys
-			text := fmt.Sprintf("%v", reader)
+			// the text the value comparison uses, so that equal keys of
+			// different numeric types (1000000 as int and as float) meet
+			text := compare.Text(reader)
 			buffer.WriteString(fmt.Sprintf("%d:%s", len(text), text))
 			buffer.WriteString("-")
 			mapper[mappedColumns[column]] = reader
